@@ -3,14 +3,14 @@ CONSTANTS
   InsSeq <- Ins2
   Flushers = {"f"}
   Closer = "c"
-  Tables = {"t1"}
+  Tables = {"t1", "t2"}
   LocSeq <- Loc2
-  FreeLocs = FALSE
+  FreeLocs = TRUE
   BatchSizes = {1, 2, 3}
-  PerIns = 2
+  PerIns = 1
   PerFl = 1
+  LateTables = {"t2"}
   LockScope = "fix"
   SigMode = "none"
 VIEW View
 INVARIANTS TypeOK AllPersistedOnce NoCrash FlushHoldsLock NeverTwice LocInternOK TxnOwner EmitCase
-PROPERTIES Terminates Refines
